@@ -10,3 +10,10 @@ MUTANTS = [
     {'name': 'header tempo constant', 'file': 'partitura/io/exportmidi.py', 'old': '            track.append(MetaMessage("set_tempo", tempo=mpq, time=0))', 'new': '            track.append(MetaMessage("set_tempo", tempo=500000, time=0))', 'expect': 'CLOCK'}]
 
 NEUTRALS = [{'name': 'sort tempo changes with sorted()', 'file': 'partitura/io/importmidi.py', 'old': '    tempo_changes.sort(key=lambda tc: tc[0])', 'new': '    tempo_changes = sorted(tempo_changes, key=lambda tc: tc[0])'}]
+
+# changes made by sub-agents that were given only the property text (see /verif/seeded/<id>/): each must stay reported
+SEEDED = [
+    {'name': 'seeded change C06-r2', 'seed': 'C06-r2', 'expect': '|TEMPO-first|'},
+    {'name': 'seeded change C06', 'seed': 'C06', 'expect': '|F7h-read|'},
+]
+MUTANTS += SEEDED
